@@ -494,6 +494,88 @@ def run_calibration(case):
         shutil.rmtree(tmp, ignore_errors=True)
 
 
+def run_deprecated(case):
+    """the deprecated but still exported entry point `pyxel.calibration_mode`: it returns, per island, the champion
+    (`dataset.champion_decision/parameters`) and the processor on which this champion was applied and run
+    (`processors`, from which `dataset.simulated_*` are computed)"""
+    import dask
+    import numpy as np
+    import probes
+    import pyxel
+    from pyxel.calibration import Algorithm, Calibration
+    from pyxel.pipelines import FitnessFunction
+
+    vs = case["vars"]
+    tmp = tempfile.mkdtemp(prefix="c10-")
+    try:
+        np.save(tmp + "/target.npy", np.full((ROWS, COLS), 7.0))
+        algo = {"sade": dict(type="sade", generations=2, population_size=8),
+                "sga": dict(type="sga", generations=2, population_size=6)}[case["algo"]]
+        cal = Calibration(
+            target_data_path=[tmp + "/target.npy"],
+            fitness_function=FitnessFunction("pyxel.calibration.fitness.sum_of_abs_residuals"),
+            algorithm=Algorithm(**algo), parameters=_param_values(vs, case.get("via", "python")), result_type="pixel",
+            result_fit_range=[0, ROWS, 0, COLS], target_fit_range=[0, ROWS, 0, COLS],
+            pygmo_seed=case["pygmo_seed"], num_islands=case["islands"], num_evolutions=case["evolutions"],
+        )
+        det, pipe = _objects(vs, False)
+        probes.reset()
+        try:
+            res = pyxel.calibration_mode(cal, det, pipe)
+            ds = res.dataset
+            last = ds.isel(evolution=-1)
+            out = {"champion_decision": np.asarray(last["champion_decision"].values, dtype=float).tolist(),
+                   "champion_parameters": np.asarray(last["champion_parameters"].values, dtype=float).tolist()}
+            applied, sim00 = [], []
+            df = res.processors.sort_values(["island", "id_processor"])
+            for _, row in df.iterrows():
+                (proc,) = dask.compute(row["processor"])
+                per = []
+                for v in vs:
+                    val = proc.get(full_key(v))
+                    per.append([v["key"], {"v": [float(t) for t in np.asarray(val).ravel()]} if isinstance(v["values"], list) else {"s": float(val)}])
+                applied.append(per)
+            out["applied"] = applied
+            # the simulated data returned for each island: pixel[0, 0] of the probe = sum of its numeric arguments
+            pix = np.asarray(ds["simulated_pixel"].values, dtype=float)
+            out["sim_sum"] = [float(pix[i].ravel()[0]) for i in range(pix.shape[0])]
+        except Exception as e:  # noqa: BLE001
+            return {"error": common.err_kind(e), "msg": str(e)[:300]}
+        prob = _problem(vs, tmp)
+        out["lb"], out["ub"] = [[float(t) for t in s] for s in prob.get_bounds()]
+        return out
+    finally:
+        shutil.rmtree(tmp, ignore_errors=True)
+
+
+def predicate_deprecated(case, impl):
+    vs = case["vars"]
+    if "error" in impl:
+        return ("C10:deprecated-run-fails", f"pyxel.calibration_mode failed: {impl['error']} {impl.get('msg', '')}")
+    logs_flat = [lg for _, _, lg in box(vs)]
+    for isl, (x, p, ap, ss) in enumerate(zip(impl["champion_decision"], impl["champion_parameters"], impl["applied"], impl["sim_sum"])):
+        exp = expected_applied(vs, x)
+        if len(p) != len(flatten(exp)) or not all(close(a, b, lg) for a, b, lg in zip(p, flatten(exp), logs_flat)):
+            return ("C10:reported-neq-applied", f"calibration_mode island {isl}: champion parameters {p} for decision {x}: declaration order gives {flatten(exp)}")
+        why = in_declared_bounds(vs, _regroup(vs, p))
+        if why:
+            return ("C10:out-of-bounds", f"calibration_mode island {isl}: reported champion: " + why)
+        if len(flatten(ap)) != len(p) or not all(close(a, b, lg) for a, b, lg in zip(flatten(ap), p, logs_flat)):
+            return ("C10:reported-neq-applied", f"calibration_mode island {isl}: reported champion parameters {p} but the returned processor of this island "
+                                                f"carries {flatten(ap)} (islands: {len(impl['applied'])})")
+        # returned simulated data of this island = pipeline run with the reported values (probe: pixel[0,0] = sum of its arguments)
+        a, tot = 0, 0.0
+        for v in vs:
+            n = slots_of(v)
+            if not v.get("det"):
+                tot += sum(p[a:a + n])
+            a += n
+        if abs(ss - tot) > 1e-9 * max(1.0, abs(tot)):
+            return ("C10:reported-neq-applied", f"calibration_mode island {isl}: simulated data of this island were produced with arguments summing to {ss!r}, "
+                                                f"the reported champion parameters sum to {tot!r}")
+    return None
+
+
 # ------------------------------------------------------------------ Lean request / canonical forms
 def lean_vars(vs):
     out = []
@@ -728,6 +810,8 @@ def over_rounds(pred, case, impl):
 
 
 def _run_case(case):
+    if case["stream"] == "deprecated":
+        return run_deprecated(case)
     return run_direct(case) if case["stream"] != "run" else run_calibration(case)
 
 
@@ -790,6 +874,16 @@ def body(ck: common.Check):
         if wf and "ok" in ans["bounds"] and not (lay["bound"] == lay["convert"] == lay["update"] == lay["spec"]):
             raise common.InfraError(f"driver contradicts theorem three_walkers_agree: {lay}")
     # full calibrations: model answers need the decision vectors the optimiser chose
+    # the deprecated entry point pyxel.calibration_mode, 2-3 islands: reported champion = what the returned processors carry
+    for i in range(3 if quick else 18):
+        c = gen_run_case(rng, "sade")  # the deprecated archipelago declares sga / nlopt logs as not implemented
+        c.update({"stream": "deprecated", "islands": 2 + (i % 2), "rounds": 1})
+        c.pop("pre_exposure", None)
+        impl = run_deprecated(c)
+        ck.case(c, nontrivial="error" not in impl, stream="deprecated:" + c["algo"])
+        pv = predicate_deprecated(c, impl)
+        if pv:
+            ck.violation(pv[0], pv[1], {"case": c, "impl": impl})
     run_impls = [run_calibration(c) for c in runs]
     flat = []  # (case, whole impl, one round of it)
     for case, impl in zip(runs, run_impls):
@@ -828,6 +922,7 @@ def body(ck: common.Check):
                "with sade/sga/nlopt (1-2 islands, 2 evolutions, best individuals) incl. single-scalar-parameter ones; "
                "declarations through the Python API (lists / tuples) or written to YAML and read by pyxel.configuration.loads (boundaries in the order written, "
                "per-component pairs in non-ascending order), detector/pipeline objects fresh or already used for an exposure before the calibration; "
+               "the deprecated entry point pyxel.calibration_mode with 2-3 islands (reported champion vs the returned processors and simulated data); "
                "history: 3 problems in a row / 2 calibrations in a row from the SAME ParameterValues objects (half of them with a logarithmic "
                "vector with per-component boundaries), each judged against the original declaration, and the caller's ParameterValues "
                "(values, boundaries, logarithmic) compared before/after every build and run; "
@@ -848,7 +943,7 @@ if __name__ == "__main__":
             print("replay names a broken obligation/correspondence, no concrete input:", rp["what"])
             sys.exit(1)
         impl = _run_case(case)
-        pv = over_rounds(predicate_run if case["stream"] == "run" else predicate_direct, case, impl)
+        pv = predicate_deprecated(case, impl) if case["stream"] == "deprecated" else over_rounds(predicate_run if case["stream"] == "run" else predicate_direct, case, impl)
         print("impl:", {k: v for k, v in impl.items() if k not in ("evals", "history")} if case["stream"] == "run" else impl)
         print("REPRODUCED: " + pv[1] if pv else "not reproduced (property holds on this input)")
         sys.exit(1 if pv else 0)
